@@ -552,7 +552,7 @@ func c10Nested() (bad int) {
 		select {
 		case <-other:
 			return true
-		case <-time.After(c10HangMax / 2):
+		case <-time.After(c10HangMax + 2*time.Second): // (the watchdog of the enclosing call fires first: reported as a hang)
 			return false
 		}
 	}
